@@ -323,6 +323,11 @@ def watchers (s : AState) (a : Acct) (acts : List String) : AState :=
   let s := if acts.contains "handleStateOpen" then handleStateOpen s a else s
   if acts.contains "WatchAccountSpend" then regSpend s a.outpoint (a.script s.key) else s
 
+/-- a clause that (re-)registers the account's expiry with the watcher directly (the pending update / batch
+clause once the expiry-tracking fix is in; absent before) -/
+def expiryRearm (s : AState) (a : Acct) (acts : List String) : AState :=
+  if acts.contains "WatchAccountExpiration" then watchExpiration s a.expiry else s
+
 /-- the auctioneer subscription is the *last* step of the clauses that have one (`handleStateOpen`, and the
 pending-batch clause): when it fails the watchers are armed already and only the result is an error -/
 def subscribeRes (s : AState) (a : Acct) (acts : List String) : Res :=
@@ -336,7 +341,7 @@ def resumeRest (s : AState) (a : Acct) (onRestart : Bool) : AState × Res :=
   | none => (s, .err)
   | some acts =>
     let r := rebroadcast s a onRestart acts
-    if r.2 = .ok then (watchers r.1 a acts, subscribeRes s a acts) else r
+    if r.2 = .ok then (expiryRearm (watchers r.1 a acts) a acts, subscribeRes s a acts) else r
 
 /-- does the stored / reported latest transaction itself carry the account output? -/
 def viaFull (key : Nat) (a : Acct) : Bool :=
@@ -447,8 +452,13 @@ def modify (s : AState) (k : Kind) (m : ModArgs) : AState × Res :=
           latestTx := some t }
         -- spendAccount: UpdateAccount, then maybeBroadcastTx
         let s := maybeBroadcast (write s a') t
-        let s := if k = .renew && Lifecycle.renewAccountCalls.contains "WatchAccountExpiration"
-          then watchExpiration s a'.expiry else s
+        -- RenewAccount always re-registers the expiry; Deposit / WithdrawAccount (with the
+        -- expiry-tracking fix) when the request changes it
+        let rearm := match k with
+          | .renew => Lifecycle.renewAccountCalls.contains "WatchAccountExpiration"
+          | .deposit => Lifecycle.depositAccountCalls.contains "WatchAccountExpiration" && m.newExpiry != 0
+          | .withdraw => Lifecycle.withdrawAccountCalls.contains "WatchAccountExpiration" && m.newExpiry != 0
+        let s := if rearm then watchExpiration s a'.expiry else s
         (s, .ok)
 
 /-- `CloseAccount` → `spendAccount(CLOSE)` -/
